@@ -265,9 +265,21 @@ def run(ctx):
             ctx.inst("C18/D4", "every context is finished into the result", len(fin) == 1 and bool(b.calls_named("std::collections::HashMap::drain")),
                      "finish() called in the closure mapping the drained context map: %s" % (len(fin) == 1), f["at"])
     # ---------------- D7
-    f = fx.fn_opt("runlib::apply_left_strip")
+    # the prefix-stripping function, by role: reachable from record_artifacts, with a loop in which the path is tested / stripped
+    # against candidate prefixes
+    f = None
+    ra = fx.fn_opt("runlib::record_artifacts")
+    if ra:
+        for k in sorted(ctx.cg.reachable([ra["key"]])):
+            g = fx.fns[k]
+            if g.get("exp") or g["kind"] not in ("Fn", "AssocFn") or not g["path"].startswith("runlib::"):
+                continue
+            gb = body_of(fx, k)
+            lps = list(gb.loops().values())
+            if any(callee_name(t) in ("core::str::strip_prefix", "core::str::starts_with") and any(i in l for l in lps) for (i, t) in gb.calls()):
+                f = g
     if f is None:
-        ctx.bad("C18/D7", "apply_left_strip", "not found (failing closed)")
+        ctx.bad("C18/D7", "strip-prefix selection", "no function reachable from record_artifacts strips candidate prefixes in a loop (failing closed)")
     else:
         b = Body(f)
         ctx.touch_body(b)
